@@ -42,7 +42,7 @@ func (c16) Cases(tier string) int {
 func (c16) Describe() core.Info {
 	return core.Info{
 		Level: "exploration",
-		Rule: "command histories of 3-25 commands over a pool of 16 small source files (facts only, declarations for predicates that another file defines without one, rules over other files' predicates, declarations with bounds, temporal facts and rules, an extensional temporal predicate declared by one file that receives facts from other files and from interactive definitions, a file with a syntax error, a file redefining another file's predicate) and 30 clause texts (valid facts and rules, rules over loaded predicates, negation, parse errors, analysis errors, redefinitions, declarations); loads of one and several files, the same file twice, pops on empty. After EVERY command the interpreter under test is compared with a fresh interpreter that replays only the live fragments in order (model: load discards the interactive fragment then pushes iff it succeeds; define replaces the interactive fragment iff it succeeds; pop drops the interactive fragment if there is one, else the top loaded fragment): success/failure of the command itself, error status of ParseQuery for each of 22 predicate names, and the multiset of query results. Non-trivial: a pop after >= 2 pushes or a failed define after a successful one; distinct by command sequence.",
+		Rule: "command histories of 3-25 commands over a pool of 18 small source files (facts only, declarations for predicates that another file defines without one, rules over other files' predicates, declarations with bounds, temporal facts and rules, an extensional temporal predicate declared by one file that receives facts from other files and from interactive definitions, a file with a syntax error, a file redefining another file's predicate, a file that turns another file's predicate into a lattice predicate whose merge replaces facts) and 32 clause texts (valid facts and rules, rules over loaded predicates, negation, parse errors, analysis errors, redefinitions, declarations); loads of one and several files, the same file twice, pops on empty. After EVERY command the interpreter under test is compared with a fresh interpreter that replays only the live fragments in order (model: load discards the interactive fragment then pushes iff it succeeds; define replaces the interactive fragment iff it succeeds; pop drops the interactive fragment if there is one, else the top loaded fragment): success/failure of the command itself, error status of ParseQuery for each of 24 predicate names, and the multiset of query results. Non-trivial: a pop after >= 2 pushes or a failed define after a successful one; distinct by command sequence.",
 		Assumptions: []string{"histories are cut at the first command whose *evaluation* fails (state afterwards is unspecified)"},
 	}
 }
@@ -65,10 +65,14 @@ var c16Files = map[string]string{
 	// an extensional temporal predicate that is declared by one file and receives facts from others
 	"ev.mg":  "Decl ev(X) temporal descr [extensional()] bound [/name].\nev(/a)@[2024-01-01T00:00:00, 2024-01-02T00:00:00].\n",
 	"ev2.mg": "ev(/b)@[2024-02-01T00:00:00, 2024-02-02T00:00:00].\n",
+	// a lattice predicate (functional dependency + merge) declared by a later fragment over facts of an earlier one: the
+	// merge replaces facts, which must not reach below the fragment's own layer
+	"dist.mg": "dist(/a, 10).\ndist(/b, 7).\n",
+	"lat.mg":  "Decl dist(K, V) descr [fundep([K], [V]), merge([V], 'smaller')].\nDecl smaller(A, B, C) descr [mode('+', '+', '-'), deferred()].\nsmaller(A, B, C) :- A < B, C = A.\nsmaller(A, B, C) :- B <= A, C = B.\ncand(/a, 3).\ncand(/b, 9).\ndist(K, V) :- cand(K, V).\n",
 	"ev3.mg": "ev(/d)@[2024-04-01T00:00:00, 2024-04-02T00:00:00].\nevu(X)@[S, E] :- ev(X)@[S, E].\n",
 }
 
-var c16FileNames = []string{"a.mg", "b.mg", "c.mg", "d.mg", "e.mg", "t.mg", "u.mg", "n.mg", "bad.mg", "conflict.mg", "adecl.mg", "adecl2.mg", "cdecl.mg", "ev.mg", "ev2.mg", "ev3.mg"}
+var c16FileNames = []string{"a.mg", "b.mg", "c.mg", "d.mg", "e.mg", "t.mg", "u.mg", "n.mg", "bad.mg", "conflict.mg", "adecl.mg", "adecl2.mg", "cdecl.mg", "ev.mg", "ev2.mg", "ev3.mg", "dist.mg", "lat.mg"}
 
 var c16Clauses = []string{
 	"f(1).", "f(2).", "g(X) :- f(X).", "h(X) :- a(X).", "k(X) :- b(X), !c(X).", "f(", "z(X) :- y(X).", "w(X) :- f(Y).",
@@ -76,9 +80,10 @@ var c16Clauses = []string{
 	"q(X) :- u(X)@[S, E].", "c(5).", "g(X) :- g(X).", "k(1).", "h(X) :- f(X), X != 1.", "e(5).",
 	"Decl a(X) bound [/number]. zz(X) :- a(X).", "Decl a(X) bound [/number]. zz(X) :- nope(X).", "Decl c(X) bound [/number]. zc(X) :- c(X).", "Decl f(X) bound [/number].", "Decl b(X) bound [/number].", "zz(X) :- a(X).",
 	"ev(/c)@[2024-03-01T00:00:00, 2024-03-02T00:00:00].", "t(3)@[2024-03-01, 2024-03-02].",
+	"Decl dist(K, V) descr [fundep([K], [V]), merge([V], 'smaller')]. Decl smaller(A, B, C) descr [mode('+', '+', '-'), deferred()]. smaller(A, B, C) :- A < B, C = A. smaller(A, B, C) :- B <= A, C = B. cand(/a, 3). cand(/b, 2). dist(K, V) :- cand(K, V). ", "dist(/c, 1).",
 }
 
-var c16Preds = []string{"a", "b", "c", "cc", "d", "e", "t", "u", "n", "f", "g", "h", "k", "m", "q", "z", "w", "r", "zz", "zc", "ev", "evu"}
+var c16Preds = []string{"a", "b", "c", "cc", "d", "e", "t", "u", "n", "f", "g", "h", "k", "m", "q", "z", "w", "r", "zz", "zc", "ev", "evu", "dist", "cand"}
 
 func (c16) Gen(r *rand.Rand, tier string, i int) any {
 	n := 3 + r.Intn(23)
@@ -88,7 +93,7 @@ func (c16) Gen(r *rand.Rand, tier string, i int) any {
 		case x < 35:
 			f := c16FileNames[r.Intn(len(c16FileNames))]
 			if r.Intn(3) == 0 {
-				f = []string{"a.mg", "b.mg", "c.mg", "t.mg", "ev.mg", "ev.mg"}[r.Intn(6)] // frequently needed bases
+				f = []string{"a.mg", "b.mg", "c.mg", "t.mg", "ev.mg", "ev.mg", "dist.mg"}[r.Intn(7)] // frequently needed bases
 			}
 			if r.Intn(6) == 0 {
 				f += "," + c16FileNames[r.Intn(len(c16FileNames))]
